@@ -88,7 +88,7 @@ func ToVal(s *schema.Node, v string) (val.Value, error) {
 		return b, nil
 	case "boolean":
 		return val.Bool(v == "true"), nil
-	case "decimal64":
+	case "decimal64", "decimal64x":
 		f, err := strconv.ParseFloat(v, 64)
 		return val.Decimal64(f), err
 	case "enum":
@@ -213,7 +213,7 @@ func FromVal(v val.Value) []string {
 func scalar(v val.Value) string {
 	switch x := v.(type) {
 	case val.Decimal64:
-		return strconv.FormatFloat(float64(x), 'f', 2, 64)
+		return model.FormatDecimal(float64(x))
 	case val.NotEmptyType:
 		return "" // the model's canonical value of an empty-typed leaf
 	}
